@@ -38,6 +38,7 @@ The passes return a world only — the registry (the tree) is not an output of `
 import Hfsm.Proofs.DispatchMach
 import Hfsm.Proofs.Quiet
 import Hfsm.Proofs.Ids
+import Hfsm.Proofs.Reach
 
 namespace Hfsm.Props.C05
 open Hfsm
@@ -388,5 +389,74 @@ Theorems that constitute C05:
   expand_isActive machineActive_of_compo tick_only_active react_only_active query_only_active
   update_quiet_root
 -/
+
+end Hfsm.Props.C05
+
+/-! ## end-to-end (composition with C01)
+
+The theorems above assume `Act`, `IdsFrom`, `machineActive` of the tree.  For every REACHABLE instance
+(`ReachableOf shape cfg m`, Proofs/Reach.lean: `Mach.create shape cfg` followed by any history of API calls with
+any decisions of the callbacks and any generator outputs) that met no contract violation and is activated,
+C01's invariant provides them: nothing is left but reachability, `err = none`, "activated" and — where the
+original has it — a decision stream long enough for the passes. -/
+namespace Hfsm.Props.C05
+open Hfsm
+variable {U : Type} [UtilArith U] {shape : Shape} {cfg : Config} {m : Mach U}
+
+/-- `update()` on a reachable instance: the three passes deliver `preUpdate` and `update` to exactly the
+states of `activePre` in that order and `postUpdate` to those of `activePost`, as far as the decision stream
+reaches. -/
+theorem update_passes_reachable (h : ReachableOf shape cfg m) (he : m.w.err = none)
+    (hm : m.root.machineActive = true) :
+    m.tickPasses.cbSeq = m.w.cbSeq ++
+      (expand .preUpdate m.root.activePre ++ expand .update m.root.activePre ++
+        expand .postUpdate m.root.activePost).take m.w.ds.length :=
+  update_passes m (h.act he hm)
+
+/-- … and these are the first callbacks of the call (plan callbacks, guards and lifecycle callbacks follow). -/
+theorem update_prefix_reachable (h : ReachableOf shape cfg m) (he : m.w.err = none)
+    (hm : m.root.machineActive = true)
+    (hds : (expand .preUpdate m.root.activePre ++ expand .update m.root.activePre ++
+        expand .postUpdate m.root.activePost).length ≤ m.w.ds.length) :
+    ∃ rest, m.update.w.cbSeq = m.w.cbSeq ++
+      (expand .preUpdate m.root.activePre ++ expand .update m.root.activePre ++
+        expand .postUpdate m.root.activePost) ++ rest :=
+  update_prefix m (h.act he hm) hds
+
+/-- `react()` on a reachable instance: the three phases in the order configured AT CONSTRUCTION, each
+truncated by consumption as `reactSpec3` says. -/
+theorem react_prefix_of_call_reachable (h : ReachableOf shape cfg m) (he : m.w.err = none)
+    (hm : m.root.machineActive = true) :
+    ∃ rest, m.react.w.cbSeq = m.w.cbSeq ++ reactSpec3 cfg.topDown m.root m.w.ds ++ rest := by
+  have := react_prefix_of_call m (h.act he hm)
+  rwa [h.cfg_topDown] at this
+
+/-- `query()` on a reachable instance. -/
+theorem query_order_reachable (h : ReachableOf shape cfg m) (he : m.w.err = none)
+    (hm : m.root.machineActive = true) :
+    m.query.w.cbSeq = m.w.cbSeq ++ reactSpec .query (m.root.activeList cfg.topDown) m.w.ds := by
+  have := query_order m (h.act he hm)
+  rwa [h.cfg_topDown] at this
+
+/-- Every handler of these enumerations belongs to a state that `isActive(stateId)` reports active — and by
+`ReachableOf.wf` the reported configuration is well formed (C01): inactive states receive nothing. -/
+theorem only_active_states_reachable (h : ReachableOf shape cfg m) (he : m.w.err = none)
+    (hm : m.root.machineActive = true) (meth : Method) (hf : Bool) :
+    ∀ it ∈ expand meth (m.root.activeList hf), m.root.isActive it.1 = true :=
+  expand_isActive m.root 0 (h.act he hm) (h.idsFrom he) hm meth hf
+
+/-- the update passes of a reachable instance, as a `GrowsBy` statement on the world -/
+theorem tick_only_active_reachable (h : ReachableOf shape cfg m) (he : m.w.err = none)
+    (hm : m.root.machineActive = true) (ph : Method) (w : World U) :
+    World.GrowsBy (fun it => m.root.isActive it.1 = true) w (m.root.tick ph w).1 :=
+  tick_only_active ph m.root 0 w (h.act he hm) (h.idsFrom he) hm
+
+/-- a concrete non-trivial reachable instance exists, satisfies the hypotheses, and has decisions left for a
+whole `update()` -/
+example : Reachable (Api.run Demo.mach Demo.prog) := Demo.reachable.reachable
+example : ∃ m : Mach Demo.DU, ReachableOf Demo.shape Demo.cfg m ∧ m.w.err = none ∧ m.root.machineActive = true ∧
+    (expand .preUpdate m.root.activePre ++ expand .update m.root.activePre ++
+      expand .postUpdate m.root.activePost).length ≤ m.w.ds.length :=
+  ⟨_, Demo.reachable, Demo.err_none, Demo.active, by decide +kernel⟩
 
 end Hfsm.Props.C05
